@@ -1111,6 +1111,22 @@ VARIANTS += [
          edits=[dict(file="ipa-core/src/helpers/transport/stream/collection.rs", find='                rs @ (StreamState::Ready(_) | StreamState::Completed) => {\n                    let state = format!("{rs:?}");\n                    let key = entry.key().clone();\n                    drop(streams);\n                    panic!("{key:?} entry state expected to be waiting, got {state:?}");\n                }\n', replace='                rs @ StreamState::Ready(_) => {\n                    // the peer retried its request: keep the newer stream\n                    *rs = StreamState::Ready(stream);\n                }\n                rs @ StreamState::Completed => {\n                    let state = format!("{rs:?}");\n                    let key = entry.key().clone();\n                    drop(streams);\n                    panic!("{key:?} entry state expected to be waiting, got {state:?}");\n                }\n')]),
 ]
 
+VARIANTS += [
+    dict(prop="C03", name="hash-skips-first-element", expect=['HASH-cover', 'iterates-its-whole-argument'],
+         edits=[dict(file="ipa-core/src/helpers/hashing.rs", find='    for x in input {\n        is_empty = false;\n        x.serialize(&mut buf);\n        sha.update(&buf);\n    }', replace='    for x in input.into_iter().skip(1) {\n        is_empty = false;\n        x.serialize(&mut buf);\n        sha.update(&buf);\n    }')]),
+    dict(prop="C03", name="hash-absorbs-buffer-prefix", expect=['HASH-cover', 'element->buffer->hasher'],
+         edits=[dict(file="ipa-core/src/helpers/hashing.rs", find='    for x in input {\n        is_empty = false;\n        x.serialize(&mut buf);\n        sha.update(&buf);\n    }', replace='    for x in input {\n        is_empty = false;\n        x.serialize(&mut buf);\n        sha.update(&buf[..1]);\n    }')]),
+    dict(prop="C03", name="hash-stops-after-64-elements", expect=['HASH-cover'],
+         edits=[dict(file="ipa-core/src/helpers/hashing.rs", find='    for x in input {\n        is_empty = false;\n        x.serialize(&mut buf);\n        sha.update(&buf);\n    }', replace='    for (n, x) in input.into_iter().enumerate() {\n        if n >= 64 {\n            break;\n        }\n        is_empty = false;\n        x.serialize(&mut buf);\n        sha.update(&buf);\n    }')]),
+    dict(prop="C03", name="hash-accepts-empty-input", expect=['HASH-cover', 'refuses-empty-input'],
+         edits=[dict(file="ipa-core/src/helpers/hashing.rs", find='    let (hash, empty) = compute_hash_internal(input);\n    assert!(!empty, "must not provide an empty iterator");\n    hash', replace='    let (hash, _empty) = compute_hash_internal(input);\n    hash')]),
+    dict(prop="C03", name="challenge-from-left-hash-only", expect=['HASH-cover', 'combines-both-hashes'],
+         edits=[dict(file="ipa-core/src/helpers/hashing.rs", find='    let combine = compute_hash([left, right]);', replace='    let combine = compute_hash([left, left]);\n    let _ = right;')]),
+    dict(prop="C03", name="hash-loop-flag-after-update", benign=True,
+         edits=[dict(file="ipa-core/src/helpers/hashing.rs", find='    for x in input {\n        is_empty = false;\n        x.serialize(&mut buf);\n        sha.update(&buf);\n    }', replace='    for x in input {\n        x.serialize(&mut buf);\n        sha.update(&buf);\n        is_empty = false;\n    }')]),
+]
+VARIANTS += [dict(v, prop="C05", name=v["name"] + "@C05") for v in VARIANTS if v["name"] in ("hash-skips-first-element", "hash-absorbs-buffer-prefix", "hash-loop-flag-after-update")]
+
 # rules shared between properties: the same edit must be reported under the other property too
 VARIANTS += [dict(v, prop="C05", name=v["name"] + "@C05") for v in VARIANTS
              if v["name"] in ("h1-shuffle-empty-shard-leaves", "sharded-shuffle-empty-shard-leaves", "reshard-closes-channels-on-input-error", "reshard-closes-before-matching-none")]
